@@ -259,6 +259,8 @@ def check_ceil_floor(ctx, x, sig):
              ('CEILING.PRECISE', (x, sig), 0), ('FLOOR.PRECISE', (x, sig), 0),
              ('CEILING.MATH', (x, sig), 0), ('FLOOR.MATH', (x, sig), 0),
              ('CEILING.MATH', (x, sig, 1), 1), ('FLOOR.MATH', (x, sig, 1), 1)]
+    # the newer functions also in the spelling Excel stores in a file
+    calls += [('_xlfn.' + f, a, m) for f, a, m in calls if '.' in f]
     for func, args, mode in calls:
         case = dict(func=func, args=list(args), form=ctx.form)
         rec.case(key=(func, repr(args), ctx.form), nontrivial=nontrivial,
@@ -269,7 +271,7 @@ def check_ceil_floor(ctx, x, sig):
             rec.fail(f'{func}:raises:{exc_key(exc)}:{cls}', case,
                      f'{func}{args!r} raised {exc!r}'[:300])
             continue
-        want = expect(func, mode)
+        want = expect(func.replace('_xlfn.', ''), mode)
         if isinstance(want, str):
             if got != want:
                 rec.fail(f'{func}:value:{cls}', case,
